@@ -144,17 +144,27 @@ def cop(op):
 
 
 HEADER = """From Coq Require Import ZArith List String.
-From Hgm Require Import NumOps F64 Xq Agg Ops Expr Build Snap Run.
+From Hgm Require Import NumOps F64 Xq Agg Ops Expr Build Snap Run Forest RunId.
 Import ListNotations.
 Open Scope Z_scope. Open Scope string_scope.
 Set Printing Width 100000000. Set Printing Depth 100000000.
 """
 
 
-def program_def(name, ops):
-    body = ";\n    ".join(cop(o) for o in ops)
-    return ("Definition %s (N : num_ops) : list (@op N) :=\n  let L := @ndy N in\n  [ %s ].\n"
-            % (name, body))
+def ciop(op):
+    if op[0] == "share":
+        return "IShare %d %s %s" % (op[1], clist("%d%%nat" % i for i in op[2]), clist("%d%%nat" % i for i in op[3]))
+    return "IBase (%s)" % cop(op)
+
+
+MODE = {"base": ("op", cop, "run_hash", "run_at"), "id": ("iop", ciop, "runi_hash", "runi_at")}
+
+
+def program_def(name, ops, mode="base"):
+    ty, f, _, _ = MODE[mode]
+    body = ";\n    ".join(f(o) for o in ops)
+    return ("Definition %s (N : num_ops) : list (@%s N) :=\n  let L := @ndy N in\n  [ %s ].\n"
+            % (name, ty, body))
 
 
 _RES = re.compile(r"=\s*(\[[^\[\]]*\])\s*:\s*list Z", re.S)
@@ -177,7 +187,7 @@ def parse_lists(text):
     return out
 
 
-def write_case_file(path, programs, instances=("F64",), extra=None, at=None):
+def write_case_file(path, programs, instances=("F64",), extra=None, at=None, mode="base"):
     """programs: list of op lists; prints, per program and instance, the list of per-observation
     hashes (or, with at=j, the j-th observation itself)"""
     with open(path, "w") as f:
@@ -185,12 +195,13 @@ def write_case_file(path, programs, instances=("F64",), extra=None, at=None):
         if extra:
             f.write(extra + "\n")
         for i, ops in enumerate(programs):
-            f.write(program_def("p%d" % i, ops))
+            f.write(program_def("p%d" % i, ops, mode))
+            _, _, rh, ra = MODE[mode]
             for inst in instances:
                 if at is None:
-                    f.write("Eval vm_compute in (run_hash (p%d %s)).\n" % (i, inst))
+                    f.write("Eval vm_compute in (%s (p%d %s)).\n" % (rh, i, inst))
                 else:
-                    f.write("Eval vm_compute in (run_at (p%d %s) %d).\n" % (i, inst, at))
+                    f.write("Eval vm_compute in (%s (p%d %s) %d).\n" % (ra, i, inst, at))
 
 
 def run_case_file(path, timeout=900):
@@ -207,7 +218,7 @@ def _tmpdir():
     return tempfile.mkdtemp(prefix="hgmcases_", dir=base)
 
 
-def run_models(programs, instances=("F64",), shard=12, jobs=16, extra=None):
+def run_models(programs, instances=("F64",), shard=12, jobs=16, extra=None, mode="base"):
     """returns, per program, a dict instance -> list of per-observation hashes"""
     import shutil
     from concurrent.futures import ThreadPoolExecutor
@@ -217,7 +228,7 @@ def run_models(programs, instances=("F64",), shard=12, jobs=16, extra=None):
         paths = []
         for si, sh in enumerate(shards):
             p = os.path.join(tmp, "cases%d.v" % si)
-            write_case_file(p, sh, instances, extra)
+            write_case_file(p, sh, instances, extra, mode=mode)
             paths.append(p)
         with ThreadPoolExecutor(max_workers=jobs) as ex:
             results = list(ex.map(run_case_file, paths))
@@ -231,13 +242,13 @@ def run_models(programs, instances=("F64",), shard=12, jobs=16, extra=None):
         shutil.rmtree(tmp, ignore_errors=True)
 
 
-def model_observation(ops, j, inst="F64", extra=None):
+def model_observation(ops, j, inst="F64", extra=None, mode="base"):
     """the full j-th observation of one program (used to describe a disagreement)"""
     import shutil
     tmp = _tmpdir()
     try:
         p = os.path.join(tmp, "one.v")
-        write_case_file(p, [ops], (inst,), extra, at=j)
+        write_case_file(p, [ops], (inst,), extra, at=j, mode=mode)
         return run_case_file(p)[0]
     finally:
         shutil.rmtree(tmp, ignore_errors=True)
